@@ -16,8 +16,7 @@ theorem hasDup_false_nodup : ∀ (xs : List Nat), hasDup xs = false → xs.Nodup
     simp only [hasDup, Bool.or_eq_false_iff] at h
     have h1 : x ∉ xs := by
       intro hm
-      have := List.contains_iff_mem.mpr hm
-      simp [this] at h
+      simp at h
       exact h.1 hm
     exact List.nodup_cons.mpr ⟨h1, hasDup_false_nodup xs h.2⟩
 
@@ -741,7 +740,7 @@ theorem idxOf_split (pl cl : Level) (post : List Level) :
       exact h'.1 (by simp)
     have hb : (a == cl) = false := by simpa using hne
     obtain ⟨ih1, ih2⟩ := idxOf_split pl cl post pre h'.2
-    refine ⟨?_, by simpa using ih2⟩
+    refine ⟨?_, by simp [ih2]⟩
     simp only [List.cons_append, List.idxOf?_cons, hb, Bool.false_eq_true, if_false, ih1]
     rfl
 
@@ -1629,6 +1628,44 @@ theorem dropLevel_hierarchy {t t' : RawTree} {l : Level} (h : t.dropLevel l = .o
               simp only [hprev] at hraw
               cases hraw
               simp only [herase]
+
+theorem mem_zipWith_exists {α β γ} (f : α → β → γ) : ∀ (as : List α) (bs : List β) (r : γ),
+    r ∈ List.zipWith f as bs → ∃ a b, r = f a b
+  | [], _, _, h => by simp at h
+  | _ :: _, [], _, h => by simp at h
+  | a :: as, b :: bs, r, h => by
+    simp only [List.zipWith_cons_cons, List.mem_cons] at h
+    rcases h with h | h
+    · exact ⟨a, b, h⟩
+    · exact mem_zipWith_exists f as bs r h
+
+/-- without `drop_level` / `flatten` there is nothing to backfill and the
+mapping cannot fail -/
+theorem mapPipeline_plain_ok {κ} (t0 : RawTree) (cfg : Config) (vote : Oracle κ)
+    (ids : List CellId) (cells : List κ) (order : List Nat)
+    (hdrop : cfg.dropLevel = none) (hflat : cfg.flatten = false)
+    (hwf : wfb t0 = true) (hv : VoteOK t0 vote)
+    (hlen : ids.length = cells.length) (hnd : ids.Nodup)
+    (hproc : 1 ≤ cfg.nProc) (hcs : 1 ≤ cfg.chunkSize)
+    (horder : order.Perm (List.range
+      (chunks cells.length (effChunk cells.length cfg.nProc cfg.chunkSize)).length)) :
+    mapPipeline t0 cfg vote ids cells order =
+      .ok ((List.zipWith (mkRecord t0 vote) ids cells).map (markDirect t0.hierarchy)) := by
+  have hrun : runTree t0 cfg = .ok t0 := by simp [runTree, hdrop, hflat]
+  rw [mapPipeline_spec t0 t0 cfg vote ids cells order hrun hwf hv hlen hnd hproc hcs horder]
+  unfold backfill
+  rw [mapM_eq_ok_map _ id]
+  · simp
+  · intro r hr
+    obtain ⟨r0, hr0, rfl⟩ := List.mem_map.mp hr
+    obtain ⟨id, c, rfl⟩ := mem_zipWith_exists _ _ _ _ hr0
+    apply backfillPairs_all_present
+    intro cp hm
+    apply lookup_isSome_of_keys
+    rw [record_keys hwf hv id c]
+    rw [dropCells_hierarchy] at hm
+    have : cp ∈ t0.hierarchy.reverse.zip t0.hierarchy.reverse.tail := hm
+    exact List.mem_reverse.mp (List.mem_of_mem_tail (List.of_mem_zip this).2)
 
 /-! ### a concrete instance for the non-vacuity examples of `Props/C01, C06, C17` -/
 
